@@ -16,7 +16,7 @@ def codeCfg : Cfg :=
     readInputRestarts := MontePyVerif.Gen.Setters.readInputRestarts }
 
 def errName : Err → String
-  | .parsing => "ParsingError" | .lexError => "LexError" | .fileNotFound => "FileNotFoundError"
+  | .parsing => "ParsingError" | .malformed => "MalformedInputError" | .fileNotFound => "FileNotFoundError"
   | .numberConflict => "NumberConflictError" | .brokenLink => "BrokenObjectLinkError"
   | .noProblem => "NoProblem" | .indexError => "IndexError" | .hang => "hang"
 
